@@ -94,7 +94,7 @@ func c15Body(tier string) func(x *engine.X) {
 		if api == 1 || api == 3 {
 			deferred = x.Pick(2, "async completion inline/deferred") == 1
 		}
-		s := genSession(x, maxMsgs, lengths)
+		s := genSession(x, maxMsgs, lengths, 0, 1, 126)
 		if x.Deviate(2, "trailing close from the peer") == 1 {
 			s.frames = append(s.frames, wsref.Frame{Fin: true, Op: wsref.OpClose, Payload: wsref.ClosePayload(1000, "")})
 			s.fmsg = append(s.fmsg, -1)
